@@ -595,11 +595,13 @@ def p_c11(ctx):
     n2 = json.loads(p.stdout.strip().splitlines()[-1])["events"]
     files = sorted(glob.glob(os.path.join(ctx.work, "lc.*.ndjson")) + glob.glob(os.path.join(ctx.work, "lw.*.ndjson")))
     bad, events = ctx.validate_traces("TraceSession.tla", "TraceSession.cfg", files)
-    viols = []
+    viols, cache = [], {}
     for b in bad:
         if b["prop"] != "C11":
             continue
-        evs = [json.loads(x) for x in open(b["file"])]
+        if b["file"] not in cache:
+            cache[b["file"]] = [json.loads(x) for x in open(b["file"])]
+        evs = cache[b["file"]]
         e = evs[b["l"] - 1]
         viols.append({"what": b["what"], "replay": {"pipeline": "lookup", "world": world_of(evs, b["l"]), "event": e}})
     samples = [json.loads(x) for x in open(files[-3]).read().splitlines() if '"Lookup"' in x][:2]
